@@ -999,8 +999,9 @@ static void exec_case(const Case& c) {
 #include <gudhi/Fields/Multi_field_small_shared.h>
 namespace pf = Gudhi::persistence_fields;
 
-// documented limits: productOfAllCharacteristics^2 fits into unsigned int (operators class; shared class with the
-// default type), into the chosen type otherwise.
+// size limits: the classes document "productOfAllCharacteristics^2 fits the type", which is what their fused methods
+// ("Not overflow safe") need; every other operation is written overflow-safe and is enumerated for every product that
+// fits the element type.
 static std::vector<Group> part_groups() {
   std::vector<Group> g;
   std::vector<std::string> rs = small_ranges(2310);
@@ -1008,7 +1009,11 @@ static std::vector<Group> part_groups() {
   rs.push_back("7-17");
   rs.push_back("251-257");
   for (auto& r : rs) for (const char* f : {"mfs_ops", "mfs_sh_u32", "mfs_sh_u64"}) g.push_back({f, r});
-  for (const char* x : {"2-23", "3-29", "65519-65521", "32749-32771"}) g.push_back({"mfs_sh_u64", x});
+  // ranges whose product only fits the element type itself (P < 2^32, among them P >= 2^31): in scope for everything that is
+  // not documented "Not overflow safe" - the classes carry explicit wrap-around code for it and the repository's own test
+  // instantiates [3,30]
+  for (const char* x : {"2-23", "3-29", "3-30", "65519-65521", "32749-32771"})
+    for (const char* f : {"mfs_ops", "mfs_sh_u32", "mfs_sh_u64"}) g.push_back({f, x});
   for (const char* f : {"mfs_ops", "mfs_sh_u32", "mfs_sh_u64"}) g.push_back({f, "refuse"});
   return g;
 }
@@ -1022,7 +1027,7 @@ static void refuse_ranges(Ctx<i128>& cx, const char* obs, i128 lim, Fn&& init_an
     cx.ops(&A, &B);
     auto ps = primes_in(a, b);
     i128 P = product<i128>(ps);
-    if (P * P > lim) continue;  // outside the documented size limit
+    if (P > lim) continue;  // the product does not fit the element type
     i128 got = 0;
     must_refuse(cx, obs, "[" + std::to_string(a) + "," + std::to_string(b) + "]", a > b || ps.empty(), [&] { got = init_and_char(a, b); });
     if (!(a > b || ps.empty())) cx.eq("get_characteristic", "after_init", got, P);
